@@ -2219,6 +2219,9 @@ func (self *Aof) GetAofLockExpriedTime(lockCommand *protocol.LockCommand, lock *
 			return uint16(expriedTimeSeconds / 60)
 		}
 		if expriedTimeSeconds > 0 {
+			if expriedTimeSeconds/60 >= 0xffff {
+				return 0xffff
+			}
 			return uint16(expriedTimeSeconds/60) + 1
 		}
 		return 0
@@ -2226,6 +2229,9 @@ func (self *Aof) GetAofLockExpriedTime(lockCommand *protocol.LockCommand, lock *
 	if lock.expriedTime > 0 {
 		expriedTimeSeconds := lock.expriedTime - int64(aofLock.CommandTime)
 		if expriedTimeSeconds > 0 {
+			if expriedTimeSeconds > 0xffff {
+				return 0xffff
+			}
 			return uint16(expriedTimeSeconds)
 		}
 		return 0
